@@ -348,6 +348,16 @@ impl Possible {
 /// `result_lens[i]` = number of test-case results individual i carries.
 #[must_use]
 pub fn possible(spec: &Spec, n: usize, result_lens: &[usize]) -> Possible {
+    let mut p = possible_by_spec(spec, n, result_lens);
+    if n == 0 {
+        // "empty population" is a documented and truthful report whenever the population is empty, also where
+        // another documented condition (zero total weight, tournament size) holds at the same time
+        p.errs.insert(Kind::Empty);
+    }
+    p
+}
+
+fn possible_by_spec(spec: &Spec, n: usize, result_lens: &[usize]) -> Possible {
     match spec {
         Spec::Marker(i) => {
             if *i < n {
